@@ -45,7 +45,22 @@ def shuffle_menu(H, e_args=()):
     return seqs
 
 
-NAMESPACE = {"shuffle": _shuffle}
+def _aliased(f, m):
+    """Call f with the caller-owned mutable object m, then mutate m the way a caller legitimately may.  If the
+    network kept a reference to m instead of copying it, the later mutation corrupts the network (and the
+    incidence / refinement monitors see it)."""
+    r = f(m)
+    if isinstance(m, set):
+        m.add(3)
+        m.discard(1)
+    elif isinstance(m, list):
+        m.append(3)
+    elif isinstance(m, dict):
+        m["MUT"] = 1
+    return r
+
+
+NAMESPACE = {"shuffle": _shuffle, "aliased": _aliased}
 
 
 def namespace():
@@ -94,6 +109,15 @@ def hypergraph_static(level="full"):
     A("H.add_edges_from({0: [1, 2], 2: [2, 3]})")
     A("H.add_edges_from({'e': [1, 3]})")
     A("H.add_edges_from({5: [1, 2, 3], 1: [2]})")
+    A("H.add_edges_from({0: {1, 2}, 'e': {2, 3}})")
+    # caller-owned containers must be copied, not aliased (same object twice; object mutated by the caller later)
+    A("aliased(lambda m: H.add_edges_from({'a': m, 'b': m}), {1, 2})")
+    A("aliased(lambda m: H.add_edges_from({5: m}), {1, 2})")
+    A("aliased(lambda m: H.add_edges_from([m, [2, 3]]), {1, 2})")
+    A("aliased(lambda m: H.add_edges_from([(m, 7)]), [1, 2])")
+    A("aliased(lambda m: H.add_edge(m), {1, 2})")
+    A("aliased(lambda d: H.add_edges_from([([1, 2], d)]), {'w': 1})")
+    A("aliased(lambda d: H.set_edge_attributes({0: d}), {'w': 5})")
     A("H.add_edges_from([[1, 2]], c='x')")
     A("H.add_edges_from({2: [1, 2]}, c='x')")
     A("H.add_edges_from([([1, 3], 1, {'c': 'y'})], c='x')")
@@ -274,6 +298,10 @@ def dihypergraph_static():
     A("H.add_edges_from({0: ([1], [2]), 2: ([2, 3], [1])})")
     A("H.add_edges_from({'e': ([1, 3], [2])})")
     A("H.add_edges_from({5: ([1], [2, 3]), 1: ([2], [])})")
+    A("aliased(lambda m: H.add_edges_from({5: (m, [2])}), {1})")
+    A("aliased(lambda m: H.add_edges_from({'a': (m, [3]), 'b': ([3], m)}), {1, 2})")
+    A("aliased(lambda m: H.add_edges_from([(m, {3})]), {1, 2})")
+    A("aliased(lambda m: H.add_edge(([3], m)), {1, 2})")
     A("H.add_edges_from([([1], [2])], c='x')")
     A("H.add_edges_from({2: ([1], [2])}, c='x')")
     A("H.add_edges_from([(([1], [3]), 1, {'c': 'y'})], c='x')")
@@ -401,6 +429,9 @@ def simplicial_static():
     A("H.add_simplices_from([([3, 1, 2], 7), ([2, 1, 4], 3)], max_order=1)")
     A("H.add_simplices_from({6: [4, 3, 2, 1], 1: [1, 3, 4]}, max_order=2)")
     A("H.add_simplex([3, 2, 1])")
+    A("aliased(lambda m: H.add_simplices_from({'a': m, 'b': [2, 4]}), {1, 2, 4})")
+    A("aliased(lambda m: H.add_simplices_from([m, [3, 4]]), [1, 2])")
+    A("aliased(lambda m: H.add_simplex(m), {1, 2})")
     A("H.add_simplex([4, 2], idx=9)")
     A("H.add_simplices_from([[1, 2], [1, 2], [2, 1]])")
     A("H.add_simplices_from([[1, 2, 3]], c='x')")
